@@ -26,7 +26,7 @@ def variant(t):
 
 def check(ctx, run):
     f = ctx.facts
-    run.rules_run = ['R19.1', 'R19.2', 'R19.3', 'R19.4']
+    run.rules_run = ['R19.1', 'R19.2', 'R19.3', 'R19.4', 'R05.14']
     vs = [v['name'] for v in f.adts[V]['variants']]
     ns = [v['name'] for v in f.adts['number::Number']['variants']]
     # ---- From<&JsonValue> for Value
@@ -103,6 +103,14 @@ def check(ctx, run):
                 if is_call(inner, 'Option::unwrap') and inner[2] and is_call(inner[2][0], 'Number::from_f64'):
                     how = 'from_f64'
                 payload = [s[2] for s in subterms(inner) if s[0] == 'downcast' and s[2] in ns]
+                # the integer handed to serde_json must be the stored one: an `as` cast to another integer type on the way changes
+                # the value for part of the range (u64 -> i64 wraps above i64::MAX, i64 -> u64 wraps below zero)
+                if how == 'into' and inner[0] == 'call' and inner[2]:
+                    a_ = deref_all(inner[2][0])
+                    if a_[0] == 'cast' and a_[1] == 'IntToInt' and len(a_) > 3:
+                        want_ty = {'Int64': 'i64', 'UInt64': 'u64'}.get(nv)
+                        if want_ty and a_[3] != want_ty:
+                            how = f'lossy cast to {a_[3]} before into'
                 nums[nv] = (how, payload)
         loc = f'{b.file}:{b.line}'
         for k in vs:
@@ -268,4 +276,6 @@ def check(ctx, run):
         # both use scalar_to_serde_json for elements
         uses = 'functions::scalar_to_serde_json' in ctx.cg.reachable([b.path])
         (run.proved if uses else run.violation)('R19.3', fn, 'element-converter', 'members are converted by scalar_to_serde_json' if uses else 'members are not converted by the shared element converter', loc)
+    from rules import walkers as _walkers
+    _walkers.w_pair(ctx, run, 'R19.9/R05.14', only=lambda p_: 'serde' in p_)
     return report.finish(run, level='other', explanation=EXPLANATION, assumptions=["finite numbers (the property's precondition) for the tree conversions"])
